@@ -213,6 +213,7 @@ type workerResult struct {
 	To         int64            `json:"to"`
 	Runs       int64            `json:"runs"`
 	Steps      int64            `json:"steps"`
+	MaxSteps   int64            `json:"max_steps"`
 	Truncated  int64            `json:"truncated"`
 	Stuck      int64            `json:"stuck"`
 	SimNanos   int64            `json:"sim_nanos"`
@@ -617,6 +618,9 @@ func check(id, tier string) int {
 	for i, r := range results {
 		agg.Runs += r.Runs
 		agg.Steps += r.Steps
+		if r.MaxSteps > agg.MaxSteps {
+			agg.MaxSteps = r.MaxSteps
+		}
 		agg.Truncated += r.Truncated
 		agg.Stuck += r.Stuck
 		agg.SimNanos += r.SimNanos
@@ -757,6 +761,8 @@ func check(id, tier string) int {
 		"runs_race_detector":                     raceRuns,
 		"race_share":                             ratio(raceRuns, agg.Runs),
 		"steps":                                  agg.Steps,
+		"longest_run_steps":                      agg.MaxSteps,
+		"step_budget_per_run":                    stepBudget(id),
 		"distinct_interleavings":                 len(distinct),
 		"runs_per_hour":                          int64(float64(agg.Runs) / wall * 3600),
 		"steps_per_second":                       int64(float64(agg.Steps) / maxf(wallMax, 0.001)),
@@ -986,6 +992,13 @@ func blockCoverage(table string, hits map[int]uint64, anchors []string) map[stri
 		out[f] = map[string]any{"blocks": fc.blocks, "executed": fc.hit, "never_executed": fc.never}
 	}
 	return out
+}
+
+// stepBudget is the per-run step budget of each harness (a run that exhausts it
+// is reported as no-progress); kept here so the evidence can show the margin.
+func stepBudget(id string) int {
+	return map[string]int{"C04": 12000, "C05": 12000, "C09": 12000, "C10": 30000, "C17": 8000, "C18": 8000, "C19": 6000,
+		"C01": 100000, "C02": 200000, "C03": 1000000, "C06": 100000, "C07": 100000, "C11": 100000, "C16": 100000}[id]
 }
 
 func annotateReplay(path, sig, detail string) {
